@@ -563,6 +563,20 @@ def replay_generate_inner(inputs, clause):
         want = (u0 <= p0, u1 <= p1)
         if results[0][1] != want:
             return f"soft requirements active = {results[0][1]}, but the activation draws {u0:.4f}, {u1:.4f} against probabilities {p0}, {p1} give {want}"
+    # independence of the activation draws: many RNG outcomes, the model's probabilities and a generic pair
+    for q0, q1 in ((p0, p1), (0.3, 0.7), (0.7, 0.3)):
+        src_q = f"ego = new Object at (Range(0, 10), 0, 0)\nrequire[{q0!r}] ego.position.x >= -100\nrequire[{q1!r}] ego.position.x >= -200\n"
+        sc = scenic.scenarioFromString(src_q, mode2D=False)
+        for seed in range(40):
+            random.seed(seed)
+            numpy.random.seed(seed)
+            sc._generateInner(3, 0, None)
+            acts = tuple(r.active for r in sc.userRequirements)
+            random.seed(seed)
+            u0, u1 = random.random(), random.random()
+            want = (u0 <= q0, u1 <= q1)
+            if acts != want:
+                return f"soft requirements require[{q0}] / require[{q1}] with random.seed({seed}): active = {acts}, but one independent draw each ({u0:.4f}, {u1:.4f}) gives {want}"
     # activation draws that hit the probabilities exactly: `u <= p` enforces the requirement
     if 0 <= p0 < 1 and 0 <= p1 < 1:
         sc = scenic.scenarioFromString(src, mode2D=False)
